@@ -260,6 +260,18 @@ Inductive op :=
 | OStruct (fs : list (N * nat))
 | OFrom (r : term).                   (* FromReflectType of the reflect type denoting r *)
 
+(* reflect has no kind 255 (the reserved term for xreflect.Forward): such an op is rejected *)
+Fixpoint clean (t : term) : bool :=
+  let all := fix all (l : list term) : bool := match l with [] => true | x :: l' => clean x && all l' end in
+  match t with
+  | TBasic k => negb (N.eqb k 255)
+  | TNamed _ => true
+  | TPtr e | TSlice e | TArray _ e | TChan _ e => clean e
+  | TMap k e => clean k && clean e
+  | TFunc i o _ => all i && all o
+  | TStruct fs => (fix allf (l : list (N * term)) : bool := match l with [] => true | (_, x) :: l' => clean x && allf l' end) fs
+  end.
+
 Definition sel (res : list (option nat)) (i : nat) : option nat :=
   match nth_error res i with Some (Some id) => Some id | _ => None end.
 
@@ -274,7 +286,7 @@ Definition bind1 (res : list (option nat)) (i : nat) (f : nat -> option (univ * 
 
 Definition step (u : univ) (res : list (option nat)) (o : op) : option (univ * nat) :=
   match o with
-  | OBase k => Some (from_reflect (TBasic k) u)
+  | OBase k => if clean (TBasic k) then Some (from_reflect (TBasic k) u) else None
   | ONamed id => Some (from_reflect (TNamed id) u)
   | OPtr i => bind1 res i (ptr_to u)
   | OSlice i => bind1 res i (slice_of u)
@@ -291,7 +303,7 @@ Definition step (u : univ) (res : list (option nat)) (o : op) : option (univ * n
       | Some a => struct_of u (combine (map fst fs) a)
       | None => None
       end
-  | OFrom r => Some (from_reflect r u)
+  | OFrom r => if clean r then Some (from_reflect r u) else None
   end.
 
 (* results in order; an ill-formed op (bad index) yields None and leaves the universe unchanged *)
@@ -318,7 +330,7 @@ Fixpoint dsel_all (den : list (option term)) (is : list nat) : option (list term
   end.
 Definition denote1 (den : list (option term)) (o : op) : option term :=
   match o with
-  | OBase k => Some (TBasic k)
+  | OBase k => if clean (TBasic k) then Some (TBasic k) else None
   | ONamed id => Some (TNamed id)
   | OPtr i => option_map TPtr (dsel den i)
   | OSlice i => option_map TSlice (dsel den i)
@@ -329,7 +341,7 @@ Definition denote1 (den : list (option term)) (o : op) : option term :=
       match dsel_all den ins, dsel_all den outs with Some a, Some b => Some (TFunc a b va) | _, _ => None end
   | OStruct fs =>
       match dsel_all den (map snd fs) with Some a => Some (TStruct (combine (map fst fs) a)) | None => None end
-  | OFrom r => Some r
+  | OFrom r => if clean r then Some r else None
   end.
 Fixpoint denote_from (den : list (option term)) (ops : list op) : list (option term) :=
   match ops with
